@@ -289,6 +289,7 @@ class Program:
             # canonicalising pre-pass against the reference tree (renamed helpers / locals, extracted helpers)
             from . import normalize as _norm
             _norm.apply(self)
+            _norm.spelling(self)
             for m in self.modules.values():
                 set_parents(m.tree)
         for m in self.modules.values():
